@@ -199,7 +199,7 @@ def check(prop, tier, seed):
                 strict_ok += 1
             for v in obs["viol"].get("C06", []):
                 strict_exc += 1
-                rep.violation(v["key"], f"[strict class, {obs['kind']}, {obs['mode']}, cfg {obs['cfg_class']}] " + v["detail"],
+                rep.violation(common.with_context(v["key"], obs), f"[strict class, {obs['kind']}, {obs['mode']}, cfg {obs['cfg_class']}] " + v["detail"],
                               replay={"kind": "campaign", "item": item})
         else:
             pk = f"{obs['opt']}|{obs['kind']}"
